@@ -736,6 +736,12 @@ func (obj *SparseFloat32VectorJointIterator) Ok() bool {
          !(obj.s2 == nil || obj.s2.GetFloat32() == float32(0))
 }
 func (obj *SparseFloat32VectorJointIterator) Next() {
+  // skip positions where all operands are zero; stop when all
+  // iterators are exhausted
+  for obj.next() && !obj.Ok() {
+  }
+}
+func (obj *SparseFloat32VectorJointIterator) next() bool {
   ok1 := obj.it1.Ok()
   ok2 := obj.it2.Ok()
   obj.s1.ptr = nil
@@ -762,6 +768,7 @@ func (obj *SparseFloat32VectorJointIterator) Next() {
   } else {
     obj.s2 = ConstFloat32(0.0)
   }
+  return ok1 || ok2
 }
 func (obj *SparseFloat32VectorJointIterator) Get() (Scalar, ConstScalar) {
   if obj.s1.ptr == nil {
@@ -815,6 +822,12 @@ func (obj *SparseFloat32VectorJoint3Iterator) Ok() bool {
          !(obj.s3 == nil || obj.s3.GetFloat32() == float32(0))
 }
 func (obj *SparseFloat32VectorJoint3Iterator) Next() {
+  // skip positions where all operands are zero; stop when all
+  // iterators are exhausted
+  for obj.next() && !obj.Ok() {
+  }
+}
+func (obj *SparseFloat32VectorJoint3Iterator) next() bool {
   ok1 := obj.it1.Ok()
   ok2 := obj.it2.Ok()
   ok3 := obj.it3.Ok()
@@ -861,6 +874,7 @@ func (obj *SparseFloat32VectorJoint3Iterator) Next() {
   } else {
     obj.s3 = ConstFloat32(0.0)
   }
+  return ok1 || ok2 || ok3
 }
 func (obj *SparseFloat32VectorJoint3Iterator) Get() (Scalar, ConstScalar, ConstScalar) {
   if obj.s1.ptr == nil {
